@@ -7,34 +7,36 @@
 (* kill call (where "because of that failure" is unambiguous); the            *)
 (* consultation counting applies to every trace.                              *)
 EXTENDS Integers, Sequences, FiniteSets, TLC, Json
-VARIABLES l, bad, parent, spawnedAt, fails, consults, cons, killedEv, restarted, kills, hookFailed, failMsg, delivCount, instAtFail, instNow, phase
+VARIABLES l, bad, parent, spawnedAt, fails, consults, cons, killedEv, restarted, kills, hookFailed, failMsg, delivCount, instAtFail, instNow, phase, killing, failsLive, nonResume
 TLog == ndJsonDeserialize("trace.ndjson")
 Ev == TLog[l]
 Get(f, k, d) == IF k \in DOMAIN f THEN f[k] ELSE d
 Put(f, k, v) == [x \in DOMAIN f \cup {k} |-> IF x = k THEN v ELSE f[x]]
 Flag(rule) == IF bad = "" THEN rule ELSE bad
-vars == <<l, bad, parent, spawnedAt, fails, consults, cons, killedEv, restarted, kills, hookFailed, failMsg, delivCount, instAtFail, instNow, phase>>
+vars == <<l, bad, parent, spawnedAt, fails, consults, cons, killedEv, restarted, kills, hookFailed, failMsg, delivCount, instAtFail, instNow, phase, killing, failsLive, nonResume>>
 
 Init == /\ l = 1 /\ bad = "" /\ parent = <<>> /\ spawnedAt = <<>> /\ fails = <<>> /\ consults = <<>> /\ cons = <<>>
         /\ killedEv = <<>> /\ restarted = {} /\ kills = 0 /\ hookFailed = FALSE /\ failMsg = <<>> /\ delivCount = <<>>
-        /\ instAtFail = <<>> /\ instNow = <<>> /\ phase = ""
+        /\ instAtFail = <<>> /\ instNow = <<>> /\ phase = "" /\ killing = {} /\ failsLive = <<>> /\ nonResume = {}
 
 RECURSIVE Anc(_, _)
 Anc(par, x) == IF x \notin DOMAIN par \/ par[x] = "root" THEN {} ELSE {par[x]} \cup Anc(par, par[x])
 Desc(par, S) == {d \in DOMAIN par : Anc(par, d) \cap S # {}}
-U == <<bad, parent, spawnedAt, fails, consults, cons, killedEv, restarted, kills, hookFailed, failMsg, delivCount, instAtFail, instNow, phase>>
+U == <<bad, parent, spawnedAt, fails, consults, cons, killedEv, restarted, kills, hookFailed, failMsg, delivCount, instAtFail, instNow, phase, killing, failsLive, nonResume>>
 
 OnReset == /\ Ev.e = "Reset"
            /\ parent' = <<>> /\ spawnedAt' = <<>> /\ fails' = <<>> /\ consults' = <<>> /\ cons' = <<>>
            /\ killedEv' = <<>> /\ restarted' = {} /\ kills' = 0 /\ hookFailed' = FALSE /\ failMsg' = <<>> /\ delivCount' = <<>>
-           /\ instAtFail' = <<>> /\ instNow' = <<>> /\ phase' = "" /\ UNCHANGED bad
+           /\ instAtFail' = <<>> /\ instNow' = <<>> /\ phase' = "" /\ killing' = {} /\ failsLive' = <<>> /\ nonResume' = {} /\ UNCHANGED bad
 OnSpawn == /\ Ev.e = "Spawn" /\ parent' = Put(parent, Ev.a, Ev.p) /\ spawnedAt' = Put(spawnedAt, Ev.a, l)
-           /\ UNCHANGED <<bad, fails, consults, cons, killedEv, restarted, kills, hookFailed, failMsg, delivCount, instAtFail, instNow, phase>>
+           /\ UNCHANGED <<bad, fails, consults, cons, killedEv, restarted, kills, hookFailed, failMsg, delivCount, instAtFail, instNow, phase, killing, failsLive, nonResume>>
 OnFail == /\ Ev.e = "Fail"
           /\ fails' = Put(fails, Ev.a, Get(fails, Ev.a, 0) + 1)
           /\ failMsg' = Put(failMsg, Ev.a, Ev.m)
           /\ instAtFail' = Put(instAtFail, Ev.a, Get(instNow, Ev.a, 0))
-          /\ UNCHANGED <<bad, parent, spawnedAt, consults, cons, killedEv, restarted, kills, hookFailed, delivCount, instNow, phase>>
+          \* a failure of an actor that has already received its OnKill is not a matter for supervision
+          /\ failsLive' = IF Ev.a \in killing THEN failsLive ELSE Put(failsLive, Ev.a, Get(failsLive, Ev.a, 0) + 1)
+          /\ UNCHANGED <<bad, parent, spawnedAt, consults, cons, killedEv, restarted, kills, hookFailed, delivCount, instNow, phase, killing, nonResume>>
 OnConsult ==
     /\ Ev.e = "Consult"
     /\ LET key == <<Ev.a, Ev.p>> IN
@@ -45,26 +47,28 @@ OnConsult ==
        /\ cons' = Put(cons, Ev.a, [failing |-> Ev.p, d |-> Ev.d, strat |-> Ev.s, n |-> Ev.n,
                                    kids |-> {c \in DOMAIN parent : parent[c] = Ev.a /\ c \notin DOMAIN killedEv}])
        /\ bad' = IF Get(parent, Ev.p, "") # Ev.a THEN Flag("ConsultedByParentOnly")
-                  ELSE IF Get(consults, key, 0) + 1 > Get(fails, Ev.p, 0) + Get(consults, <<Ev.p, "*esc">>, 0)
-                       THEN Flag("ConsultedAtMostOncePerFailure")
+                  ELSE IF Get(consults, key, 0) + 1 > Get(failsLive, Ev.p, 0) + Get(consults, <<Ev.p, "*esc">>, 0)
+                       THEN Flag(IF Get(fails, Ev.p, 0) > Get(failsLive, Ev.p, 0) THEN "NoSupervisionWhileStopping" ELSE "ConsultedAtMostOncePerFailure")
                   ELSE bad
        \* an Escalate decision makes the supervisor itself the failing actor one level up
-    /\ UNCHANGED <<parent, spawnedAt, fails, killedEv, restarted, kills, hookFailed, failMsg, delivCount, instAtFail, instNow, phase>>
+    /\ nonResume' = IF Ev.d \notin {"resume", "escalate"} THEN nonResume \cup {Ev.a} ELSE nonResume
+    /\ UNCHANGED <<parent, spawnedAt, fails, killedEv, restarted, kills, hookFailed, failMsg, delivCount, instAtFail, instNow, phase, killing, failsLive>>
 OnEsc == FALSE
 OnEvKilled == /\ Ev.e = "EvKilled" /\ killedEv' = Put(killedEv, Ev.a, l)
-              /\ UNCHANGED <<bad, parent, spawnedAt, fails, consults, cons, restarted, kills, hookFailed, failMsg, delivCount, instAtFail, instNow, phase>>
+              /\ UNCHANGED <<bad, parent, spawnedAt, fails, consults, cons, restarted, kills, hookFailed, failMsg, delivCount, instAtFail, instNow, phase, killing, failsLive, nonResume>>
 OnHook == /\ Ev.e = "Hook"
           /\ restarted' = IF Ev.k = "restarted" THEN restarted \cup {Ev.a} ELSE restarted
           /\ hookFailed' = (hookFailed \/ Ev.v = 0)
-          /\ UNCHANGED <<bad, parent, spawnedAt, fails, consults, cons, killedEv, kills, failMsg, delivCount, instAtFail, instNow, phase>>
+          /\ UNCHANGED <<bad, parent, spawnedAt, fails, consults, cons, killedEv, kills, failMsg, delivCount, instAtFail, instNow, phase, killing, failsLive, nonResume>>
 OnKillCall == /\ Ev.e = "KillCall" /\ kills' = kills + 1
-              /\ UNCHANGED <<bad, parent, spawnedAt, fails, consults, cons, killedEv, restarted, hookFailed, failMsg, delivCount, instAtFail, instNow, phase>>
+              /\ UNCHANGED <<bad, parent, spawnedAt, fails, consults, cons, killedEv, restarted, hookFailed, failMsg, delivCount, instAtFail, instNow, phase, killing, failsLive, nonResume>>
 OnDeliv == /\ Ev.e = "Deliv"
            /\ instNow' = Put(instNow, Ev.a, Ev.i)
            /\ delivCount' = IF Ev.k = "user" THEN Put(delivCount, <<Ev.a, Ev.m>>, Get(delivCount, <<Ev.a, Ev.m>>, 0) + 1) ELSE delivCount
-           /\ UNCHANGED <<bad, parent, spawnedAt, fails, consults, cons, killedEv, restarted, kills, hookFailed, failMsg, instAtFail, phase>>
+           /\ killing' = IF Ev.k = "kill" THEN killing \cup {Ev.a} ELSE IF Ev.k = "launch" THEN killing \ {Ev.a} ELSE killing
+           /\ UNCHANGED <<bad, parent, spawnedAt, fails, consults, cons, killedEv, restarted, kills, hookFailed, failMsg, instAtFail, phase, failsLive, nonResume>>
 OnQBegin == /\ Ev.e = "QBegin" /\ phase' = Ev.s
-            /\ UNCHANGED <<bad, parent, spawnedAt, fails, consults, cons, killedEv, restarted, kills, hookFailed, failMsg, delivCount, instAtFail, instNow>>
+            /\ UNCHANGED <<bad, parent, spawnedAt, fails, consults, cons, killedEv, restarted, kills, hookFailed, failMsg, delivCount, instAtFail, instNow, killing, failsLive, nonResume>>
 
 TotalFails == LET RECURSIVE Sum(_) Sum(S) == IF S = {} THEN 0 ELSE LET x == CHOOSE x \in S : TRUE IN fails[x] + Sum(S \ {x}) IN Sum(DOMAIN fails)
 
@@ -84,7 +88,7 @@ EffectOK(s, c) ==
          [] c.d = "resume" ->
               IF restarted # {} \/ dead # {} THEN "ResumeTouchesNobody"
               ELSE IF Get(delivCount, <<c.failing, Get(failMsg, c.failing, 0)>>, 1) > 1 THEN "FailingMessageNotRedelivered"
-              ELSE IF Get(instNow, c.failing, 0) # Get(instAtFail, c.failing, 0) THEN "ResumeKeepsInstance"
+              ELSE IF c.failing \in DOMAIN instAtFail /\ Get(instNow, c.failing, 0) # instAtFail[c.failing] THEN "ResumeKeepsInstance"
               ELSE ""
          [] OTHER -> ""
 
@@ -97,7 +101,7 @@ OnQEnd ==
            unconsulted == {y \in DOMAIN fails : /\ Get(parent, y, "root") # "root"
                                                 /\ Get(parent, y, "root") \notin DOMAIN killedEv
                                                 /\ y \notin DOMAIN killedEv
-                                                /\ Get(consults, <<parent[y], y>>, 0) < fails[y]}
+                                                /\ Get(consults, <<parent[y], y>>, 0) < Get(failsLive, y, 0)}
            r == IF ~single THEN ""
                 ELSE IF s = "root" THEN (IF x \notin DOMAIN killedEv THEN "TopIsStop" ELSE "")
                 ELSE IF s \notin DOMAIN cons THEN "ConsultedOnce"
@@ -107,10 +111,16 @@ OnQEnd ==
                             ELSE IF g \notin DOMAIN cons \/ cons[g].failing # s THEN "EscalateReachesGrandparent"
                             ELSE IF cons[g].d = "escalate" THEN "" ELSE EffectOK(g, cons[g])
                      ELSE EffectOK(s, cons[s])
+           \* every escalation by a supervisor that stays alive under a grandparent that only ever resumes was put to that grandparent
+           escalators == {sv \in DOMAIN parent : Get(consults, <<sv, "*esc">>, 0) > 0}
+           dropped == {sv \in escalators : /\ parent[sv] # "root" /\ parent[sv] \notin DOMAIN killedEv /\ sv \notin DOMAIN killedEv
+                                            /\ sv \notin restarted /\ parent[sv] \notin nonResume /\ sv \notin nonResume
+                                            /\ Get(consults, <<parent[sv], sv>>, 0) < Get(failsLive, sv, 0) + consults[<<sv, "*esc">>]}
        IN bad' = IF bad # "" THEN bad
                   ELSE IF phase = "probed" /\ unconsulted # {} THEN "ConsultedOnce"
+                  ELSE IF phase = "probed" /\ kills = 0 /\ ~hookFailed /\ dropped # {} THEN "EveryEscalationReachesGrandparent"
                   ELSE r
-    /\ UNCHANGED <<parent, spawnedAt, fails, consults, cons, killedEv, restarted, kills, hookFailed, failMsg, delivCount, instAtFail, instNow, phase>>
+    /\ UNCHANGED <<parent, spawnedAt, fails, consults, cons, killedEv, restarted, kills, hookFailed, failMsg, delivCount, instAtFail, instNow, phase, killing, failsLive, nonResume>>
 OnOther == /\ Ev.e \notin {"Reset", "Spawn", "Fail", "Consult", "EvKilled", "Hook", "KillCall", "Deliv", "QBegin", "QEnd"}
            /\ UNCHANGED U
 Next == l <= Len(TLog) /\ l' = l + 1 /\ (OnReset \/ OnSpawn \/ OnFail \/ OnConsult \/ OnEvKilled \/ OnHook \/ OnKillCall \/ OnDeliv \/ OnQBegin \/ OnQEnd \/ OnOther)
